@@ -220,9 +220,21 @@ class NumpyCodegenMapper(CachedMapper[str, Never, []]):
             if isinstance(e, Array):
                 return ast.Name(self.rec(e))
             else:
-                if np.isnan(e):
+                if (isinstance(e, float | np.floating)
+                        and not np.isfinite(e)):
+                    # generates code like: `np.float32("-inf")`, `float("nan")`.
+                    # (the repr of a non-finite NumPy scalar is not an expression,
+                    # and a Python float must stay weakly typed)
+                    return ast.Call(
+                        func=(ast.Attribute(value=ast.Name(self.numpy),
+                                            attr=cast("str", e.dtype.name))
+                              if isinstance(e, np.generic)
+                              else ast.Name("float")),
+                        args=[_constant(value=str(float(e)))],
+                        keywords=[])
+                elif np.isnan(e):
                     e_np = np.array(e)
-                    # generates code like: `np.float64("nan")`.
+                    # generates code like: `np.complex128("nan")`.
                     return ast.Call(
                         func=ast.Attribute(value=ast.Name(self.numpy),
                                            attr=cast("str", e_np.dtype.name)),
